@@ -77,9 +77,52 @@ def _lattice_dipoles(s):
     s["FinalTimeEndOfRunEventHandler"]["end_of_run_time"] = "50"
 
 
+def cuboid_hard_cells(package_dir):
+    """Hard spheres in a non-cubic periodic box with a cell system: pair events with the units in nearby cells, pair
+    events with surplus units, cell-boundary events (the pattern of hard_disk_dipoles_cells.ini, for atoms)."""
+    s = hard_spheres(package_dir)
+    s["Run"]["setting"] = "hypercuboid_setting"
+    s.pop("HypercubicSetting")
+    s["HypercuboidSetting"] = {"system_lengths": "2.0, 1.0", "beta": "1", "dimension": "2"}
+    s["HardSpherePotential"] = {"radius": "0.05"}
+    s["LatticeInputHandler"] = {"number_of_root_nodes": "9", "jitter": "0.04"}
+    s["TagActivator"] = {"taggers": "nearby (excluded_cells_tagger),\nsurplus (surplus_cells_tagger),\n"
+                                    "cell_boundary (cell_boundary_tagger),\nsampling (no_in_state_tagger),\n"
+                                    "end_of_chain (active_global_state_in_state_tagger),\n"
+                                    "end_of_run (no_in_state_tagger),\nstart_of_run (no_in_state_tagger)",
+                         "internal_states": "single_active_cell_occupancy"}
+    s.pop("Coulomb")
+    s.pop("FactorTypeMaps", None)
+    group = "nearby, surplus, cell_boundary"
+    for name in ("Nearby", "Surplus"):
+        s[name] = {"create": group, "trash": group, "internal_state_label": "single_active_cell_occupancy",
+                   "event_handler": "hard_event_handler (two_leaf_unit_event_handler)", "number_event_handlers": "8"}
+    s["CellBoundary"] = {"create": group, "trash": group, "internal_state_label": "single_active_cell_occupancy",
+                         "event_handler": "cell_boundary_event_handler"}
+    s["SingleActiveCellOccupancy"] = {"cells": "cuboid_periodic_cells", "cell_level": "1",
+                                      "maximum_number_occupants": "1"}
+    s["CuboidPeriodicCells"] = {"cells_per_side": "6, 4", "neighbor_layers": "1"}
+    s["EndOfChain"]["create"] = "end_of_chain, " + group
+    s["EndOfChain"]["trash"] = "end_of_chain, " + group
+    s["EndOfRun"]["trash"] = "end_of_chain, sampling, end_of_run, " + group
+    s["StartOfRun"]["create"] = "sampling, end_of_chain, end_of_run, " + group
+    return s
+
+
+def cuboid_soft(package_dir):
+    """Soft spheres in a non-cubic periodic box (no cell system)."""
+    s = soft_spheres(package_dir)
+    s["Run"]["setting"] = "hypercuboid_setting"
+    s.pop("HypercubicSetting")
+    s["HypercuboidSetting"] = {"system_lengths": "1.0, 1.5, 2.0", "beta": "2", "dimension": "3"}
+    s["SingleIndependentActivePeriodicDirectionEndOfChainEventHandler"]["chain_time"] = "0.3"
+    return s
+
+
 BUILDERS = {"soft_spheres": soft_spheres, "lj_atoms": lj_atoms, "hard_spheres": hard_spheres,
             "hard_disks": hard_disks, "hard_disk_dipoles": hard_disk_dipoles,
-            "hard_disk_dipoles_cells": hard_disk_dipoles_cells}
+            "hard_disk_dipoles_cells": hard_disk_dipoles_cells, "cuboid_hard_cells": cuboid_hard_cells,
+            "cuboid_soft": cuboid_soft}
 
 
 def build(package_dir, name):
